@@ -113,7 +113,17 @@ let run_split (args : (string * string) list) : string =
     let (mres, mbounds) : n split_result * n list option =
       match op with
       | "at" -> (model.lb_split (nl given_cuts), None)
-      | "k" -> (split_iter model (n_of_int k), None)
+      | "k" ->
+        (* WHICH k+1 cutpoints a request for k parts uses is the implementation's choice (the
+           ceiling formula today); the model is split at the cut sequence implied by the
+           lengths of the parts the implementation returned - the theorems hold for every
+           legal cut sequence - and the oracle demands k contiguous parts covering the scan *)
+        (match get_opt args "parts", status with
+         | Some ps, "ok" ->
+           let lens = List.map List.length (parse_parts ps) in
+           let cuts_obs = List.rev (List.fold_left (fun acc l -> (List.hd acc + l) :: acc) [0] lens) in
+           (model.lb_split (nl cuts_obs), None)
+         | _ -> (split_iter model (n_of_int k), None))
       | "ipl" ->
         (* the DEFAULT number of parallel lenders is the implementation's choice (the pool
            size today); the model is run for the number of parts the implementation actually
@@ -145,7 +155,9 @@ let run_split (args : (string * string) list) : string =
       let cuts : int list =
         match op, bounds with
         | "at", _ -> given_cuts
-        | "k", _ -> il (uniform_cuts (n_of_int n) (n_of_int k))
+        | "k", _ ->
+          let lens = List.map List.length parts in
+          List.rev (List.fold_left (fun acc l -> (List.hd acc + l) :: acc) [0] lens)
         | _, Some b -> b
         | _, None -> [] in
       if legal then begin
@@ -165,7 +177,10 @@ let run_split (args : (string * string) list) : string =
            (* an explicit request for k parts must be honoured; the DEFAULT number of parallel
               lenders (op "ipl") is not fixed by the property - only its agreement with the
               reported boundaries is (aspect "count") - so it is recorded, not judged *)
-           if op = "k" then add "nparts" (ok (List.length parts = k));
+           if op = "k" then begin
+             add "nparts" (ok (List.length parts = k));
+             add "i_kcuts" (if cuts = il (uniform_cuts (n_of_int n) (n_of_int k)) then "ceiling" else "other")
+           end;
            if op = "ipl" then add "i_nparts" (if List.length parts = k then "threads" else "other");
            if op = "ipl_cp" then add "boundsgiven" (ok (bounds = Some given_cuts))
          | _ -> ())
